@@ -40,6 +40,9 @@ class Ent:
     def val(self):
         return self.a
 
+    def rows(self):             # two levels: a list of collections
+        return [list(self.tags), tuple(reversed(self.tags)), [self.a]]
+
     def kids_now(self):         # a NEW list at every call (computed on demand)
         return list(self.kids)
 
